@@ -5,7 +5,7 @@ package vexec
 import (
 	osexec "os/exec"
 
-	"github.com/taskctl/taskctl/internal/vrt"
+	"github.com/taskctl/taskctl/vrt"
 )
 
 // ExitError and Error are the genuine os/exec types, so that errors.As in taskctl keeps working.
